@@ -15,3 +15,34 @@ def fullmatch(pattern, s, exact=True):
     (exact=False: over-approximate python's \\d, for facts about every word of the language)"""
     import re
     return isinstance(s, str) and re.fullmatch(pattern, s, re.DOTALL) is not None
+
+
+class _SolverStub:
+    """stands for z3 / pyvc.folds / interpreter classes when a contract module is imported by an interpreter without
+    the solver (native replay of a counterexample under the repository's own python: only the spec functions and the
+    contract clauses are needed there)"""
+
+    def __getattr__(self, name):
+        return self
+
+    def __call__(self, *a, **k):
+        return self
+
+    def __getitem__(self, k):
+        return self
+
+    def __iter__(self):
+        return iter(())
+
+
+def solver_modules():
+    """(z3, pyvc.folds, parse_expr, Env) or stubs when the solver is not installed for this interpreter"""
+    try:
+        import z3
+        from pyvc import folds
+        from pyvc.verify import parse_expr
+        from pyvc.interp import Env
+        return z3, folds, parse_expr, Env
+    except ImportError:
+        s = _SolverStub()
+        return s, s, s, s
